@@ -373,6 +373,19 @@ let () =
         Printf.printf "wtokens %s\n" (String.concat " " (List.map (function
             | WTok (r, h) -> Printf.sprintf "T:%d:%d" (int_of_n r) (int_of_nat h)
             | WPull k -> Printf.sprintf "Q:%d" (int_of_nat k)) evs))
+      | L [A "faultrun"; A vname; sc; L adj; L src] ->
+        (* src: (d b1 b2 ...) data chunk, e = interrupted read, x = read error *)
+        let (v, _) = List.assoc vname views in
+        let src = List.map (function
+            | L (A "d" :: bs) -> RData (List.map (fun b -> n_of_int (ai b)) bs)
+            | A "e" -> REintr
+            | A "x" -> RErr
+            | _ -> failwith "faultrun: bad source item") src in
+        let total = List.fold_left (fun a x -> match x with RData c -> a + List.length c | _ -> a) 0 src in
+        let evs = fault_events v (adj_of adj) (nat_of_int (total + 2)) (z_of_int (ai sc - 1)) src in
+        Printf.printf "faultrun %s\n" (String.concat " " (List.map (function
+            | FTok (r, h) -> Printf.sprintf "T:%d:%d" (int_of_n r) (int_of_nat h)
+            | FFatal -> "F") evs))
       | L [A "warncheck"; mode; fuel] ->
         (* mode 0: first-rule selection; 1: REJECT / variable trailing context (every matching rule may be reached) *)
         let rejmode = ab mode in
@@ -495,6 +508,7 @@ let () =
           | L [A "flush"; i] -> BFlush (n_of_int (ai i))
           | L [A "delete"; i] -> BDelete (n_of_int (ai i))
           | L [A "lex"; k] -> BLex (nat_of_int (ai k))
+          | L [A "lexpop"; k] -> BLexPop (nat_of_int (ai k))
           | _ -> failwith "bop" in
         let evs = brun prog (ab ln) binit (List.map bop_of ops) in
         let fnv bs = List.fold_left (fun h b -> ((h lxor (int_of_n b)) * 16777619) land 0xFFFFFFFF) 2166136261 bs in
